@@ -154,7 +154,7 @@ pub fn run(ctx: &Ctx) -> i32 {
     let wall_seqs = seqs(WALL_OPTS, 2);
     let win_seqs = seqs(WIN_OPTS, 2);
     let tb_seqs = seqs(LENS.len(), ctx.tier.pick(1, 2));
-    let sp = Grid::new(&[("walls", wall_seqs.len()), ("windows", win_seqs.len()), ("bridges", tb_seqs.len()), ("nil_space", 2)]);
+    let sp = Grid::new(&[("walls", wall_seqs.len()), ("windows", win_seqs.len()), ("bridges", tb_seqs.len()), ("nil_space", 2), ("nil_own_id", 4)]);
     let n = sp.size();
     #[derive(Default)]
     struct Acc {
@@ -164,6 +164,14 @@ pub fn run(ctx: &Ctx) -> i32 {
     let accs = par_fold(n, |i, acc: &mut Acc| {
         let t = sp.unrank(i);
         let mut m = build(&wall_seqs[t[0]], &win_seqs[t[1]], &tb_seqs[t[2]], t[3] == 1);
+        // the id of the element that carries the broken link is an id like any other - also the nil one, which serde accepts
+        // and no exporter writes: the last wall, window or bridge has it in three of every four models
+        match t[4] {
+            1 => if let Some(w) = m.walls.last_mut() { w.id = nil() },
+            2 => if let Some(w) = m.windows.last_mut() { w.id = nil() },
+            3 => if let Some(w) = m.thermal_bridges.last_mut() { w.id = nil() },
+            _ => {}
+        }
         if i % 5 == 2 {
             // every fifth model: long names of 2-, 3- and 4-byte letters starting at different byte offsets (a warning
             // that quotes a name quotes it whole, or cuts it between letters)
@@ -179,7 +187,7 @@ pub fn run(ctx: &Ctx) -> i32 {
             }
         }
         ctx.eval(1);
-        let case = || json!({"walls(space+3*cons+9*next_to)": wall_seqs[t[0]], "windows(wall+3*cons)": win_seqs[t[1]], "bridge_len_idx": tb_seqs[t[2]], "nil_space": t[3] == 1, "model": serde_json::to_value(&m).unwrap()});
+        let case = || json!({"walls(space+3*cons+9*next_to)": wall_seqs[t[0]], "windows(wall+3*cons)": win_seqs[t[1]], "bridge_len_idx": tb_seqs[t[2]], "nil_space": t[3] == 1, "nil_own_id(0 none,1 last wall,2 last window,3 last bridge)": t[4], "model": serde_json::to_value(&m).unwrap()});
         if i % (n / 3 + 1) == n / 7 {
             ctx.sample(json!({"walls(space+3*cons+9*next_to)": wall_seqs[t[0]], "windows(wall+3*cons)": win_seqs[t[1]], "bridge_len_idx": tb_seqs[t[2]], "nil_space": t[3] == 1}));
         }
@@ -327,7 +335,7 @@ pub fn run(ctx: &Ctx) -> i32 {
     }
     ctx.finish(
         "model_checking",
-        &format!("full product (an 'absent' id is an id of another collection for the first element of a kind, a present id with its leading hex digit changed for the second, a fresh id from the third on): 0..2 walls x (space{{ok,absent,nil}} x cons{{ok,absent,nil}} x next_to{{None,ok,absent,nil}}, the boundary kind cycling through INTERIOR/EXTERIOR/ADIABATIC/GROUND so that every (next_to option, kind) pair occurs) x 0..{} windows x (wall{{ok,absent,nil}} x cons{{ok,absent}}) x 0..{} bridges x l{{-1,-0.0,0,2,-0.004,-1e-30}} x {{no space with nil id, one}}; user U / obstruction overrides on some of the walls and windows; every fifth model with long names of multi-byte letters at different byte offsets; oracle = number of broken links per element id (reference: set membership, l<0), compared with the number of warnings carrying that id; every 97th model also: JSON unchanged by check(), the histories check -> {{remove last space, remove first construction, add a space and move a wall into it, remove first wall}} -> check on a clone of the checked model, energy_indicators().warnings == check(); + 7 shipped models; non-trivial = at least one broken link expected", 2, ctx.tier.pick(1, 2)),
+        &format!("full product (an 'absent' id is an id of another collection for the first element of a kind, a present id with its leading hex digit changed for the second, a fresh id from the third on): 0..2 walls x (space{{ok,absent,nil}} x cons{{ok,absent,nil}} x next_to{{None,ok,absent,nil}}, the boundary kind cycling through INTERIOR/EXTERIOR/ADIABATIC/GROUND so that every (next_to option, kind) pair occurs) x 0..{} windows x (wall{{ok,absent,nil}} x cons{{ok,absent}}) x 0..{} bridges x l{{-1,-0.0,0,2,-0.004,-1e-30}} x {{no space with nil id, one}} x {{no element, the last wall, the last window, the last bridge}} has the nil id as its own; user U / obstruction overrides on some of the walls and windows; every fifth model with long names of multi-byte letters at different byte offsets; oracle = number of broken links per element id (reference: set membership, l<0), compared with the number of warnings carrying that id; every 97th model also: JSON unchanged by check(), the histories check -> {{remove last space, remove first construction, add a space and move a wall into it, remove first wall}} -> check on a clone of the checked model, energy_indicators().warnings == check(); + 7 shipped models; non-trivial = at least one broken link expected", 2, ctx.tier.pick(1, 2)),
         true,
         json!({"space_size": n}),
     )
